@@ -3,8 +3,8 @@ import json, os
 from . import core
 
 RULE = ("TLC (GenDegen.tla) enumerates the degeneracy grammar: 15 path-list shapes (no path, empty path, 1-2 points, duplicates, collinear, spike, "
-        "coincident copies, zero area, explicitly closed, bow-tie, hole, mixtures) x shapes x 6 magnitude classes (1 .. 2^62) x 36 entry points "
-        "(boolean paths/tree 64/D, offset paths/tree/D, RectClip(Lines), Minkowski, utilities, C exports) x parameters = 39 435 calls; each call runs "
+        "coincident copies, zero area, explicitly closed, bow-tie, hole, mixtures) x shapes x 6 magnitude classes (1 .. 2^62) x 38 entry points "
+        "(boolean paths/tree 64/D, offset paths/tree/D, RectClip(Lines), Minkowski, utilities, C exports, and two short call sequences: offset into a destroyed polytree then into paths, shared reusable containers with open paths) x parameters = 43 k calls; each call runs "
         "in its own child under ASan+UBSan+LSan (USINGZ build for part of them; signed-overflow checks only for |coordinates| <= 2^29) with a 20 s "
         "watchdog; single allocation faults are enumerated completely for the selected calls (allocation k = 1..N fails, N counted first); "
         "CallTrace.tla accepts only Call.Return.Destroyed(no leak) or, with a fault, Call.Throw(bad_alloc).Destroyed; evaluations = calls + fault "
